@@ -29,8 +29,16 @@ pub fn run(opts: &Opts) -> Report {
     let mut model = Model::spawn();
     let mut rng = Rng::new(opts.seed);
     let n = if opts.thorough { 4000 } else { 400 } * opts.scale;
+    let rt = tokio::runtime::Builder::new_current_thread().enable_all().build().unwrap();
     for _ in 0..n {
-        let ts = TestStore::new("c10");
+        // one case in three goes through the HTTP layer (payload parsing, defaults, status mapping)
+        let via_http = rng.chance(1, 3);
+        let (ts, app) = if via_http {
+            let (t, a) = TestStore::with_app("c10h");
+            (t, Some(a))
+        } else {
+            (TestStore::new("c10"), None)
+        };
         let store = &ts.store;
         let t0 = store.ensure_default().unwrap();
         let mut msgs: Vec<Msg> = Vec::new();
@@ -99,7 +107,34 @@ pub fn run(opts: &Opts) -> Report {
             _ => (Some("# s".into()), Some(existing_artifact.clone())),
         };
         rep.evaluations += 1;
-        let result = if is_branch {
+        let mut http_status: Option<u16> = None;
+        let result = if let Some(app) = &app {
+            rep.count("via_http");
+            let mut body = json!({"actor_id": "u", "origin": "cli"});
+            if let Some(m) = &from_message_id {
+                body["from_message_id"] = json!(m);
+            }
+            if let Some(q) = from_seq {
+                body["from_seq"] = json!(q);
+            }
+            if !is_branch {
+                if let Some(m) = &markdown {
+                    body["summary_markdown"] = json!(m);
+                }
+                if let Some(a) = &artifact {
+                    body["summary_artifact_id"] = json!(a);
+                }
+            }
+            let uri = format!("/threads/{}/{}", src.replace('/', "%2F"), if is_branch { "branch" } else { "handoff" });
+            let (st, v) = rt.block_on(crate::http::call_json(&app.router, "POST", &uri, Some(body)));
+            http_status = Some(st.as_u16());
+            if st == axum::http::StatusCode::CREATED {
+                let (qk, mk) = if is_branch { ("parent_seq", "parent_message_id") } else { ("from_seq", "from_message_id") };
+                Ok((v["thread_id"].as_str().unwrap_or("").to_string(), v[qk].as_u64().unwrap_or(u64::MAX), v[mk].as_str().map(|s| s.to_string())))
+            } else {
+                Err(format!("http {}", st.as_u16()))
+            }
+        } else if is_branch {
             store.branch(&src, None, from_message_id.clone(), from_seq, "u".into(), "cli".into()).map(|(c, q, m)| (c, q, m))
         } else {
             store.handoff(&src, None, (markdown.clone(), artifact.clone()), from_message_id.clone(), from_seq, ("u".into(), "cli".into()))
@@ -161,7 +196,18 @@ pub fn run(opts: &Opts) -> Report {
                 s
             }
         };
-        if impl_line != m {
+        if let Some(st) = http_status {
+            // over HTTP a refusal is a status: the model's error class decides which one
+            let want_status = match m.strip_prefix("err ") {
+                None => 201,
+                Some("conflicting") | Some("out-of-range") | Some("no-summary") => 400,
+                Some("no-such-thread") | Some("not-found") | Some("artifact-missing") => 404,
+                Some(_) => 500,
+            };
+            if st != want_status || (st == 201 && impl_line != m) {
+                rep.disagreement("branch/handoff over HTTP", case.clone(), &format!("status {st} {impl_line}"), &format!("status {want_status} {m}"));
+            }
+        } else if impl_line != m {
             rep.disagreement("branch/handoff result", case.clone(), &impl_line, &m);
         }
         // implementation oracles
